@@ -5,6 +5,7 @@ use std::net::SocketAddrV4;
 use std::net::SocketAddrV6;
 
 use anyhow::Result;
+use anyhow::bail;
 use tokio_util::bytes::Buf;
 use tokio_util::bytes::BufMut;
 use tokio_util::bytes::BytesMut;
@@ -34,6 +35,10 @@ pub fn encode(addr: &Address, dst: &mut BytesMut) {
 }
 
 pub fn decode(src: &mut BytesMut) -> Result<Address> {
+    let length = try_decode_at(src, 0)?;
+    if src.remaining() < length {
+        bail!("incomplete address, expecting {} bytes, but found {} bytes", length, src.remaining());
+    }
     let addr_type = Socks5AddressType::try_from(src.get_u8())?;
     match addr_type {
         Socks5AddressType::Ipv4 => {
@@ -44,7 +49,7 @@ pub fn decode(src: &mut BytesMut) -> Result<Address> {
             let len = src.get_u8();
             let host_bytes = src.split_to(len as usize);
             let port = src.get_u16();
-            let host = unsafe { String::from_utf8_unchecked(host_bytes.to_vec()) };
+            let host = String::from_utf8(host_bytes.to_vec())?;
             Ok(Address::Domain(host, port))
         }
         Socks5AddressType::Ipv6 => {
@@ -64,10 +69,18 @@ pub fn length(addr: &Address) -> usize {
     }
 }
 
+/// Encoded length of the address starting at `at`, as far as the bytes present can tell:
+/// never less than what is needed to find out more, so `src.len() < at + n` means "wait for more".
 pub fn try_decode_at(src: &BytesMut, at: usize) -> Result<usize> {
-    match Socks5AddressType::try_from(src[at])? {
+    let Some(addr_type) = src.get(at) else {
+        return Ok(1);
+    };
+    match Socks5AddressType::try_from(*addr_type)? {
         Socks5AddressType::Ipv4 => Ok(1 + 4 + 2),
-        Socks5AddressType::Domain => Ok(1 + 1 + src[at + 1] as usize + 2),
+        Socks5AddressType::Domain => match src.get(at + 1) {
+            Some(len) => Ok(1 + 1 + *len as usize + 2),
+            None => Ok(1 + 1 + 2),
+        },
         Socks5AddressType::Ipv6 => Ok(1 + 8 * 2 + 2),
     }
 }
